@@ -1,192 +1,102 @@
-(** Concrete traces of the wait-list protocol (Model/PoolWait.v): the three
-    reachable deadlocks (computed by vm_compute) and their permanence. *)
-From Coq Require Import List NArith Bool Arith Lia.
-From Tongo Require Import Model.PoolWait Proofs.PoolWaitP.
+(** Concrete traces of the repaired wait-list protocol (Model/PoolWait.v): the
+    schedules that used to deadlock now run to completion, the keep-the-newer
+    notification at work, and observations (not defects). *)
+From Coq Require Import List NArith ZArith Bool Arith Lia.
+From Tongo Require Import Model.Pool Model.PoolWait Proofs.PoolWaitP.
 Import ListNotations.
 
-Section Gen.
-  Variable nconns : nat.
-  Variable tgt : nat -> N.
-  Notation step := (step nconns tgt).
-  Notation reachable := (reachable nconns tgt).
+Definition w_tgt : nat -> N := fun _ => 10%N.
 
-  Lemma run_reachable ls : forall s0 s s',
-    reachable s0 s -> run nconns tgt s ls = Some s' -> reachable s0 s'.
-  Proof.
-    induction ls as [|l t IH]; intros s0 s s' Hr Hrun; cbn [run] in Hrun.
-    - injection Hrun as <-. exact Hr.
-    - destruct (step s l) as [s1|] eqn:Hs; [|discriminate].
-      eapply IH; [|exact Hrun]. eapply reach_step; eassumption.
-  Qed.
-
-  Lemma reachable_trans s0 s s' : reachable s0 s -> reachable s s' -> reachable s0 s'.
-  Proof. intros H0 H1. induction H1; [exact H0|eapply reach_step; eassumption]. Qed.
-
-  Lemma f14_dead_forever u w rem r s s' :
-    f14_dead u w rem r s -> reachable s s' -> f14_dead u w rem r s'.
-  Proof. intros Hd Hr. induction Hr; [exact Hd|eapply f14_dead_stable; eassumption]. Qed.
-
-  Lemma upd_dead_forever k h s s' :
-    upd_dead nconns k h s -> reachable s s' -> upd_dead nconns k h s'.
-  Proof. intros Hd Hr. induction Hr; [exact Hd|eapply upd_dead_stable; eassumption]. Qed.
-
-  Lemma sub_dead_forever w c h u s s' :
-    sub_dead w c h u s -> reachable s s' -> sub_dead w c h u s'.
-  Proof. intros Hd Hr. induction Hr; [exact Hd|eapply sub_dead_stable; eassumption]. Qed.
-
-  Lemma f14_dead_stuck u w rem r s :
-    lock_inv nconns s -> f14_dead u w rem r s -> ~ holder_can_step nconns tgt s.
-  Proof.
-    intros (_ & Hmx & _) Hd. pose proof (f14_dead_freezes nconns tgt _ _ _ _ _ Hd) as (_ & _ & _ & _ & Hsend & Hun).
-    destruct Hd as (Hp & _ & _ & Hrd). unfold holder_can_step.
-    rewrite (Hmx _ _ Hp). intros [H|[H|H]]; congruence.
-  Qed.
-
-  Lemma upd_dead_stuck k h s :
-    lock_inv nconns s -> upd_dead nconns k h s -> ~ holder_can_step nconns tgt s.
-  Proof.
-    intros (_ & _ & [_ Hrun2] & _) (Hp & Hk & Hc & _). unfold holder_can_step.
-    rewrite (Hrun2 (ex_intro _ k Hp)). unfold PoolWait.step. rewrite Hp, Hc.
-    assert (Hlt : Nat.ltb k nconns = true) by (apply Nat.ltb_lt; exact Hk).
-    assert (Hle : Nat.leb nconns k = false) by (apply Nat.leb_gt; exact Hk).
-    rewrite Hlt, Hle, andb_true_r, andb_false_r.
-    destruct (is_writer s ARun); cbn [andb]; intros [H|[nb H]]; congruence.
-  Qed.
-
-  Lemma sub_dead_stuck w c h u s :
-    sub_dead w c h u s -> ~ holder_can_step nconns tgt s.
-  Proof.
-    intros (Hpc & Hwr & Hb & Hc & _). unfold holder_can_step. rewrite Hwr.
-    unfold PoolWait.step. rewrite Hpc, Hb, Hc. destruct (is_writer s (AW w)); congruence.
-  Qed.
-End Gen.
-
-(** ---- F14: two notifications while a waiter leaves ----
-    one connection (head 5, the best one), one waiter for seqno 10 *)
-Definition f14_tgt : nat -> N := fun _ => 10%N.
-Definition f14_init : state := init_state (fun _ => 5%N) (Some 0).
+(** ---- the F14 schedule (two head updates while a waiter leaves) on the repaired
+    code: Run replaces the stale head in the full channel, releases the read lock,
+    the timed-out caller unsubscribes and returns, the pool is idle ---- *)
 Definition f14_trace : list label :=
   [ LSubLock 0; LSubBody 0;                 (* WaitMasterchainSeqno(10): registered as id 1 *)
     LSetHead 0 6; LPublish 0;               (* block 6 arrives *)
     LTake; LRLock [0]; LSend; LRUnlock;     (* Run notifies: waiter channel now holds 6 *)
     LSetHead 0 7; LPublish 0;               (* block 7 arrives *)
-    LLeave 0 RTimeout;                      (* the waiter's timeout fires; it has not drained its channel *)
-    LTake; LRLock [0] ].                    (* Run: RLock taken, next send is into the full channel *)
+    LLeave 0 RTimeout;                      (* the timeout fires; the channel is not drained *)
+    LTake; LRLock [0];                      (* Run: RLock taken, next send is into the full channel *)
+    LSend; LRUnlock;                        (* ... which now holds 7; RUnlock *)
+    LUnsub 0 ].                             (* the caller returns "timeout" *)
 
-Lemma f14_trace_runs :
-  exists s, run 1 f14_tgt f14_init f14_trace = Some s /\ f14_dead (0, 7%N) 0 [] RTimeout s.
-Proof.
-  eexists. split; [vm_compute; reflexivity|].
-  unfold f14_dead. sred. repeat apply conj; try reflexivity; vm_compute; discriminate.
-Qed.
+Example f14_trace_completes :
+  exists s, run BestPing 1 w_tgt (init_state (fun _ => 5%N) (Some 0)) f14_trace = Some s /\
+    wpc s 0 = WDone RTimeout /\ wch s 0 = Some (0, 7%N) /\ wl s = [] /\
+    readers s = 0 /\ writer s = None /\ rpc s = RIdle.
+Proof. eexists. split; [vm_compute; reflexivity|]. repeat apply conj; reflexivity. Qed.
 
-(** ---- updateBest against a publisher on a full update buffer ----
-    one connection publishes heads 1..10 (buffer full), enters SetMasterHead(11)
-    and blocks in the send holding c.mu; Run's select takes the ticker branch *)
 Fixpoint publishes (c : nat) (from : N) (n : nat) : list label :=
   match n with
   | O => []
-  | S n' => LSetHead c from :: LPublish c :: publishes c (from + 1)%N n'
+  | S n' => LSetHead c from :: LPublish 0 :: publishes c (from + 1)%N n'
   end.
 
-Definition upd_init : state := init_state (fun _ => 0%N) (Some 0).
-Definition upd_trace : list label := publishes 0 1 10 ++ [LSetHead 0 11; LTick].
+(** ---- the F14b schedules on the repaired code: with the buffer full and an 11th
+    SetMasterHead waiting for room (holding no lock), updateBest and subscribe run
+    to completion, Run takes an update and the waiting send completes ---- *)
+Example upd_trace_completes :
+  exists s, run BestPing 1 w_tgt (init_state (fun _ => 0%N) (Some 0))
+              (publishes 0 1 10 ++ [LSetHead 0 11; LTick; LUpdDone [(true, 1%Z)]; LTake; LPublish 0]) = Some s /\
+    length (updq s) = 10 /\ pend s = [] /\ best s = Some 0 /\ writer s = None /\ rpc s = RWantR (0, 1%N).
+Proof. eexists. split; [vm_compute; reflexivity|]. repeat apply conj; reflexivity. Qed.
 
-Lemma upd_trace_runs :
-  exists s, run 1 f14_tgt upd_init upd_trace = Some s /\ upd_dead 1 0 11%N s.
-Proof.
-  eexists. split; [vm_compute; reflexivity|].
-  unfold upd_dead. sred. repeat apply conj; try reflexivity. lia.
-Qed.
+Example sub_trace_completes :
+  exists s, run BestPing 1 (fun _ => 100%N) (init_state (fun _ => 0%N) (Some 0))
+              ([LSetHead 0 1; LPublish 0; LTake] ++ publishes 0 2 10 ++
+               [LSetHead 0 12; LSubLock 0; LSubBody 0; LRLock [0]; LSend; LRUnlock; LTake; LPublish 0]) = Some s /\
+    wpc s 0 = WWait /\ wch s 0 = Some (0, 1%N) /\ pend s = [] /\ writer s = None /\ readers s = 0.
+Proof. eexists. split; [vm_compute; reflexivity|]. repeat apply conj; reflexivity. Qed.
 
-(** ---- subscribe against a publisher on a full update buffer ----
-    Run has received one update and is about to RLock; the buffer fills again,
-    the best connection blocks in its 12th send; a waiter enters subscribe *)
-Definition sub_trace : list label :=
-  [LSetHead 0 1; LPublish 0; LTake] ++ publishes 0 2 10 ++ [LSetHead 0 12; LSubLock 0].
+(** ---- keep the newer head, not the later one: the best connection switches from
+    0 to 1 while head 10 of connection 0 is still in the channel; head 9 of the new
+    best connection must not replace it (a waiter for seqno 10 still succeeds) ---- *)
+Example switch_keeps_sufficient_head :
+  exists s,
+    run BestPing 2 w_tgt (init_state (fun _ => 1%N) (Some 0))
+      [LSubLock 0; LSubBody 0;
+       LSetHead 0 10; LPublish 0; LTake; LRLock [0]; LSend; LRUnlock;      (* 10 from connection 0 *)
+       LTick; LUpdDone [(true, 5%Z); (false, 1%Z)];                       (* still 0 *)
+       LSetHead 1 9; LPublish 0;
+       LTick; LUpdDone [(false, 5%Z); (true, 1%Z)];                       (* best := 1 *)
+       LTake; LRLock [0]; LSend; LRUnlock;                                (* 9 from connection 1 *)
+       LRecv 0; LUnsub 0] = Some s /\
+    best s = Some 1 /\ wgot s 0 = Some (0, 10%N) /\ wpc s 0 = WDone ROk.
+Proof. eexists. split; [vm_compute; reflexivity|]. repeat apply conj; reflexivity. Qed.
 
-Lemma sub_trace_runs :
-  exists s, run 1 (fun _ => 100%N) upd_init sub_trace = Some s /\ sub_dead 0 0 12%N (0, 1%N) s.
-Proof.
-  eexists. split; [vm_compute; reflexivity|].
-  unfold sub_dead. sred. repeat apply conj; reflexivity.
-Qed.
-
-(** ---- the refutations ---- *)
-
-(** a reachable state from which, whatever any agent does afterwards, the holder of
-    the pool lock never has an enabled step and waiter 0, whose timeout has fired,
-    never returns *)
-Theorem pool_never_blocks_refuted :
-  exists nconns tgt heads b s,
-    reachable nconns tgt (init_state heads b) s /\
-    forall s', reachable nconns tgt s s' ->
-      ~ holder_can_step nconns tgt s' /\ wpc s' 0 = WUnsub RTimeout.
-Proof.
-  exists 1, f14_tgt, (fun _ => 5%N), (Some 0).
-  destruct f14_trace_runs as (s & Hrun & Hd). exists s.
-  assert (Hr : reachable 1 f14_tgt (init_state (fun _ => 5%N) (Some 0)) s).
-  { eapply run_reachable; [apply reach_init|exact Hrun]. }
-  split; [exact Hr|]. intros s' Hr'.
-  pose proof (f14_dead_forever _ _ _ _ _ _ _ _ Hd Hr') as Hd'.
-  split; [|exact (proj1 (proj2 (proj2 Hd')))].
-  eapply f14_dead_stuck; [|exact Hd'].
-  eapply lock_inv_reachable. eapply reachable_trans; eassumption.
-Qed.
-
-Theorem pool_never_blocks_refuted_updatebest :
-  exists nconns tgt heads b s,
-    reachable nconns tgt (init_state heads b) s /\
-    forall s', reachable nconns tgt s s' ->
-      ~ holder_can_step nconns tgt s' /\ rpc s' = RUpd 0.
-Proof.
-  exists 1, f14_tgt, (fun _ => 0%N), (Some 0).
-  destruct upd_trace_runs as (s & Hrun & Hd). exists s.
-  assert (Hr : reachable 1 f14_tgt (init_state (fun _ => 0%N) (Some 0)) s).
-  { eapply run_reachable; [apply reach_init|exact Hrun]. }
-  split; [exact Hr|]. intros s' Hr'.
-  pose proof (upd_dead_forever _ _ _ _ _ _ Hd Hr') as Hd'.
-  split; [|exact (proj1 Hd')].
-  eapply upd_dead_stuck; [|exact Hd'].
-  eapply lock_inv_reachable. eapply reachable_trans; eassumption.
-Qed.
-
-Theorem pool_never_blocks_refuted_subscribe :
-  exists nconns tgt heads b s,
-    reachable nconns tgt (init_state heads b) s /\
-    forall s', reachable nconns tgt s s' ->
-      ~ holder_can_step nconns tgt s' /\ wpc s' 0 = WSubL /\ rpc s' = RWantR (0, 1%N).
-Proof.
-  exists 1, (fun _ => 100%N), (fun _ => 0%N), (Some 0).
-  destruct sub_trace_runs as (s & Hrun & Hd). exists s.
-  assert (Hr : reachable 1 (fun _ => 100%N) (init_state (fun _ => 0%N) (Some 0)) s).
-  { eapply run_reachable; [apply reach_init|exact Hrun]. }
-  split; [exact Hr|]. intros s' Hr'.
-  pose proof (sub_dead_forever _ _ _ _ _ _ _ _ Hd Hr') as Hd'.
-  split; [eapply sub_dead_stuck; exact Hd'|].
-  destruct Hd' as (H1 & _ & _ & _ & _ & H6). auto.
-Qed.
+(** a complete successful wait: subscribe(10) at head 5, head 12 arrives, Run
+    notifies, the waiter receives 12 and returns nil; the registry is empty again *)
+Example wait_example :
+  exists s,
+    run BestPing 1 w_tgt (init_state (fun _ => 5%N) (Some 0))
+      [LSubLock 0; LSubBody 0; LSetHead 0 12; LPublish 0; LTake; LRLock [0]; LSend; LRUnlock;
+       LRecv 0; LUnsub 0] = Some s /\
+    wpc s 0 = WDone ROk /\ wgot s 0 = Some (0, 12%N) /\ wl s = [] /\ readers s = 0 /\ writer s = None.
+Proof. eexists. split; [vm_compute; reflexivity|]. repeat apply conj; reflexivity. Qed.
 
 (** ---- observations (not counted as defects) ---- *)
 
 (** a switch of the best connection does not wake waiters: the new best
     connection already reports a head beyond the target, nothing is in flight,
-    the waiter stays in its loop until that connection publishes again *)
+    the waiter stays in its loop until that connection publishes again (the
+    property speaks of heads the best connection *reports*, i.e. publishes) *)
 Example switch_does_not_wake :
-  exists s, reachable 2 (fun _ => 10%N) (init_state (fun c => if Nat.eqb c 1 then 20%N else 5%N) (Some 0)) s /\
+  exists s, reachable BestPing 2 w_tgt (init_state (fun c => if Nat.eqb c 1 then 20%N else 5%N) (Some 0)) s /\
     best s = Some 1 /\ (10 <= head s 1)%N /\ wpc s 0 = WWait /\ wch s 0 = None /\
-    updq s = [] /\ rpc s = RIdle.
+    updq s = [] /\ pend s = [] /\ rpc s = RIdle.
 Proof.
-  destruct (run 2 (fun _ => 10%N) (init_state (fun c => if Nat.eqb c 1 then 20%N else 5%N) (Some 0))
-              [LSubLock 0; LSubBody 0; LTick; LUpdRead; LUpdRead; LUpdDone (Some 1)]) as [s|] eqn:Hrun;
+  destruct (run BestPing 2 w_tgt (init_state (fun c => if Nat.eqb c 1 then 20%N else 5%N) (Some 0))
+              [LSubLock 0; LSubBody 0; LTick; LUpdDone [(false, 1%Z); (true, 1%Z)]]) as [s|] eqn:Hrun;
     [|vm_compute in Hrun; discriminate].
   exists s. split; [eapply run_reachable; [apply reach_init|exact Hrun]|].
   vm_compute in Hrun. injection Hrun as <-. sred.
   repeat apply conj; try reflexivity. vm_compute. discriminate.
 Qed.
 
-(** subscribe on a pool without a best connection panics (nil interface call) *)
+(** subscribe on a pool without any connection panics (nil interface call); the
+    property quantifies over pools of 1..4 connections, where it cannot happen
+    (Proofs/PoolWaitP.v subscribe_never_panics) *)
 Example subscribe_without_best_panics :
-  exists s, run 0 f14_tgt (init_state (fun _ => 0%N) None) [LSubLock 0; LSubBody 0] = Some s /\
-            wpc s 0 = WPanicked.
-Proof. eexists. split; [vm_compute; reflexivity|reflexivity]. Qed.
+  exists s, run BestPing 0 w_tgt (init_state (fun _ => 0%N) None) [LSubLock 0; LSubBody 0] = Some s /\
+            wpc s 0 = WPanicked /\ writer s = None.
+Proof. eexists. split; [vm_compute; reflexivity|split; reflexivity]. Qed.
